@@ -26,7 +26,7 @@ RULE = (
 )
 ASSUMPTIONS = [
     "sample_count >= 1, sample_rate > 0, channel_count 1..8 (a header announcing zero samples is not generated)",
-    "sample_coding is written as 'pcm', 'ulaw' or 'alaw' with sample_n_bytes and sample_byte_format always present",
+    "sample_coding is written as 'pcm', 'ulaw' or 'alaw' with sample_n_bytes always present; sample_byte_format always present for PCM and left out of a third of the mu-law / A-law headers (NIST requires it only when sample_n_bytes > 1)",
     "header padding is blanks; optional fields are -i/-r/-sN fields with unique names, no comment lines",
     "a requested dtype on PCM data means stored.astype(dtype); on G.711 data a 1-byte dtype means the raw codes, "
     "any wider dtype means expanded.astype(dtype)",
@@ -101,7 +101,8 @@ def file_bytes(case):
     frames = make_frames(case["coding"], case["n"], case["channels"], case["kind"], case["seed"])
     h = case["hdr"]
     data = sw.write_sphere(
-        frames, case["coding"], case["rate"], h["k"], h["layout"], h["extras"], long_extra=h.get("long", 0)
+        frames, case["coding"], case["rate"], h["k"], h["layout"], h["extras"], long_extra=h.get("long", 0),
+        omit_byte_format=h.get("no_byte_format", False),
     )
     hdr_size = len(data) - frames.size * (2 if case["coding"].startswith("pcm") else 1)
     if case["coding"].startswith("pcm") and data[hdr_size : hdr_size + 4] == b"ajkg":
@@ -187,6 +188,8 @@ def _frame_labels(case, data_bytes):
     ]
     if case["hdr"].get("long", 0):
         labels.append("hdr-long-field")
+    if case["hdr"].get("no_byte_format") and not case["coding"].startswith("pcm"):
+        labels.append("hdr-without-byte-format")
     if nondiv:
         labels.append("nondividing")
     if multi and nondiv:
@@ -310,6 +313,8 @@ def _hdr():
             "layout": st.integers(0, 2 ** 31 - 1),
             "extras": st.integers(0, 10),
             "long": st.sampled_from([0, 0, 0, 700, 1500]),
+            # 1-byte codings may leave out sample_byte_format (required only when sample_n_bytes > 1)
+            "no_byte_format": st.sampled_from([False, False, True]),
         }
     )
 
